@@ -341,17 +341,21 @@ class Outcome(object):
     __slots__ = ('ps', 'form', 'bound', 'adv', 'calls', 'results', 'order', 'maxpos', 'knames', 'error')
 
 
-def observe(ps, form, bound):
+def observe(ps, form, bound, getter=None):
     """Decorate really; returns (decorated callable or None, advertised params or
-    None for ValueError, other exception or None)."""
-    f = make_fn(ps, fresh=True)
+    None for ValueError, other exception or None).  With a getter the callable
+    is fetched from an already built scenario (shared function) instead."""
+    f = make_fn(ps, fresh=True) if getter is None else None
     try:
         with warnings.catch_warnings():
             warnings.simplefilter('ignore')
-            g = apply_form(f, form)
-            if bound:
-                cls = type('C', (object,), {'m': g})
-                g = cls().m
+            if getter is not None:
+                g = getter()
+            else:
+                g = apply_form(f, form)
+                if bound:
+                    cls = type('C', (object,), {'m': g})
+                    g = cls().m
             s1 = describe_params(sigtools.signature(g))
             s2 = describe_params(inspect.signature(g))
     except ValueError as e:
@@ -374,14 +378,16 @@ def case_calls(ps, bound):
     return maxpos, tuple(named) + (FOREIGN,)
 
 
-def check_case(ps, form, bound, rep, stats, only_call=None, defer=None):
+def check_case(ps, form, bound, rep, stats, only_call=None, defer=None, getter=None, shared=None):
     """Runs one decorated function against the spec and the native-def oracle.
     Returns (advertised or None, [canonical result per call]) for the model
     comparison, or None when the case cannot be compared."""
     what0 = '%s with f%s%s' % (show_form(form), show_ps(ps), ' accessed on an instance' if bound else '')
-    rdict = {'ps': [list(p) for p in ps], 'form': [form[0]] + [list(x) if isinstance(x, tuple) else x for x in form[1:]],
-             'bound': bound}
-    g, adv, err = observe(ps, form, bound)
+    rdict = {'ps': [list(p) for p in ps], 'form': _form_to(form), 'bound': bound}
+    if shared is not None:
+        rdict['shared'] = shared
+        what0 = '%s [%s]' % (what0, show_shared(shared))
+    g, adv, err = observe(ps, form, bound, getter)
     spec = spec_decorate(ps, form)
     self_selected = False
     if bound and spec is not None:
@@ -485,6 +491,86 @@ def show_canon(c):
             v = {name_of(k): x for k, x in v}
         out.append('%s=%s' % (name_of(nm), v))
     return ', '.join(out)
+
+
+# ---------------------------------------------------------------- one function, several translators
+# The descriptor cache (OverrideableDataDesc.insts) is keyed by the function
+# that __get__ produced; every translator must own its cache.  Scenarios: the
+# SAME function object decorated with several different admissible selections,
+# used as attributes of one class (same instance, or through the class) or of
+# several classes (through the class), looked up in a given order first.
+#   shared = {'forms': [...], 'mode': 'instance' | 'class' | 'classes', 'order': [...], 'index': i}
+def _form_to(form):
+    return [form[0]] + [list(x) if isinstance(x, tuple) else x for x in form[1:]]
+
+
+def show_shared(sh):
+    forms = [show_form(_form_from(f)) for f in sh['forms']]
+    where = {'instance': 'attributes m0.. of one class, looked up on one instance',
+             'class': 'attributes m0.. of one class, looked up on the class',
+             'classes': 'attribute m of classes C0.., looked up on the classes'}[sh['mode']]
+    return 'the same function object is also decorated as %s; %s in the order %s; this is number %d' % (
+        ' / '.join(forms), where, sh['order'], sh['index'])
+
+
+def build_shared(ps, sh):
+    """Builds the scenario, performs the first round of lookups in sh['order'],
+    returns a getter for the translator number sh['index']."""
+    f = make_fn(ps, fresh=True)
+    with warnings.catch_warnings():
+        warnings.simplefilter('ignore')
+        gs = [apply_form(f, _form_from(fm)) for fm in sh['forms']]
+    if sh['mode'] == 'classes':
+        owners = [type('C%d' % i, (object,), {'m': g}) for i, g in enumerate(gs)]
+        attrs = ['m'] * len(gs)
+    else:
+        cls = type('C', (object,), {'m%d' % i: g for i, g in enumerate(gs)})
+        owner = cls() if sh['mode'] == 'instance' else cls
+        owners = [owner] * len(gs)
+        attrs = ['m%d' % i for i in range(len(gs))]
+    keep = []
+    for i in sh['order']:
+        try:
+            keep.append(getattr(owners[i], attrs[i]))
+        except Exception:  # noqa: BLE001
+            pass
+    i = sh['index']
+    return lambda: getattr(owners[i], attrs[i])
+
+
+def shared_forms(ps, rng):
+    """2-3 admissible selections of ps with pairwise different advertised
+    signatures that do not name the first parameter."""
+    first = ps[0][0]
+    cands = []
+    seen = set()
+    forms = forms_for(ps, rng, True)
+    rng.shuffle(forms)
+    for fm in forms:
+        spec = spec_decorate(ps, fm)
+        sel = spec_select(ps, fm)
+        if spec is None or not (sel[0] or sel[1]) or first in sel[0] or first in sel[1]:
+            continue
+        if spec in seen or spec == tuple(ps):
+            continue
+        seen.add(spec)
+        cands.append(fm)
+        if len(cands) == 3:
+            break
+    return cands
+
+
+def shared_scenarios(ps, rng):
+    forms = shared_forms(ps, rng)
+    if len(forms) < 2:
+        return
+    n = len(forms)
+    fl = [_form_to(f) for f in forms]
+    for mode in ('instance', 'class', 'classes'):
+        order = list(range(n))
+        rng.shuffle(order)
+        for index in range(n):
+            yield forms[index], mode == 'instance', {'forms': fl, 'mode': mode, 'order': order, 'index': index}
 
 
 # ---------------------------------------------------------------- the model, inside Coq
@@ -650,6 +736,18 @@ def run(ctx, rep):
                     rep.distinct.add((ps, form, bound))
                 if srng.random() < (2.0 if adv is not None else 0.5) * budget / float(total_guess):
                     model_cases.append((ps, form, bound, adv, results))
+    # ---- the same function object behind several translators
+    shrng = ctx.rng('shared')
+    nshared = 0
+    cand = [ps for ps in fns if ps and ps[0][1] in ('PO', 'PK') and sum(1 for p in ps if p[1] == 'PK') >= 2]
+    for ps in (shrng.sample(cand, min(len(cand), 90)) if ctx.quick else cand):
+        for form, bound, sh in shared_scenarios(ps, shrng):
+            getter = build_shared(ps, sh)
+            r = check_case(ps, form, bound, rep, stats, defer=deferred, getter=getter, shared=sh)
+            nshared += 1
+            if r is not None and r[0] != 'skip' and srng.random() < 0.15:
+                model_cases.append((ps, form, bound, r[0], r[1]))
+    rep.coverage['shared_function_lookups'] = nshared
     # ---- model correspondence inside Coq
     fixed = []
     for ps, form, bound, adv, results in model_cases:
@@ -705,7 +803,7 @@ def run(ctx, rep):
                 'assignment of the regular parameters, stacked both ways, irregular names, start=, end= for every '
                 'name, autokwoargs with every exceptions subset) x direct call and instance access x every call '
                 'shape (positional count 0..n+1 x every keyword subset incl. foreign z) with distinguishable values; '
-                'distinct = decorated functions whose advertised signature differs from the original or that raise'
+                'plus one function object decorated 2-3 times with different selections in one class / several classes, looked up in shuffled order on one instance and on the class; distinct = decorated functions whose advertised signature differs from the original or that raise'
                 % ('samples of U(3,{a,b,c}) and U(4,{a..d})' if ctx.quick else 'U(3,{a,b,c}) + sample of U(4,{a..d})'))
     for c in model_cases[3:6] + model_cases[-3:]:
         rep.sample({'case': '%s with f%s%s' % (show_form(c[1]), show_ps(c[0]), ' (bound)' if c[2] else ''),
@@ -753,7 +851,10 @@ def replay(ctx, data):
     call = None
     if 'call' in r:
         call = (r['call'][0], tuple(r['call'][1]))
-    check_case(ps, form, r['bound'], rp, stats, only_call=call)
+    if 'shared' in r:
+        check_case(ps, form, r['bound'], rp, stats, only_call=call, getter=build_shared(ps, r['shared']), shared=r['shared'])
+    else:
+        check_case(ps, form, r['bound'], rp, stats, only_call=call)
     if rp.found:
         return rp.found[0][1]
     return None
